@@ -31,6 +31,19 @@ CHECKS = {
             "Trusted: TLC, the recording driver (vf/props/c10.py), exactness of cKDTree for radii not attained by a lattice distance. "
             "Selections that select nothing and infinite radii on PeriodicGrid (C11) are outside this check.",
             "DESIGN.md section 5 C10"),
+    "C19": (MC, "TLC exhaustive model check of the cache/aliasing state machine (CacheSys.tla) and the remembered-scale machine "
+                "(ScaleSys.tla) + TLC trace validation of behaviours replayed on the real caches",
+            "TLC checks for ALL histories (2 methods x 2 degrees x <=3 live objects, 2.3e5 states) of constructions with cache on/off, "
+            "in-place edits of returned arrays, drops, atomic-grid construction, shell extraction and the r=0 regeneration path that a "
+            "freshly built grid always carries the shipped data, that no caller action reaches a cached array and that no user-visible array "
+            "aliases the cache; the as-shipped aliasing variant is refuted in 3 steps.  TLC enumerates every behaviour of length 3; they and "
+            "seeded longer ones (all four methods, Coulomb parameter table) are replayed on the library, after each step contents are compared "
+            "with the shipped files loaded independently and memory sharing with cached arrays is measured; the recorded traces are judged by "
+            "TLC (CacheTrace.tla).  Call sequences on the three b-inferring transforms are judged by ScaleTrace.tla (set-once scale, results a "
+            "function of (operation, x, b)).",
+            "Trusted: TLC, the measuring harness (np.shares_memory, allclose against independently loaded .npz/.json), one bit of content "
+            "per buffer (ok/dirty) as abstraction.",
+            "DESIGN.md section 5 C19"),
 }
 
 NOT_YET = {}
